@@ -150,7 +150,7 @@ def ob_maxcount_inv(width, depth, mkl, Lq, timeout_ms):
             opts.append(z3.And(colq[r] == c, hhh.same_ident(ln, b, nq, qb), cnt != 0))
         stored.append(z3.Or(*opts))
     assume = list(post.pc) + book.range_constraints() + [sk.rep_inv(pre), cells_inv(sk, pre, F)]
-    goals = [("hh[key] <= true count of the key's identity", z3.ULE(zx(rv.t, 64), F(nq, qb))),
+    goals = [("hh[key] <= true count of the key's identity", z3.And(rv.t >= 0, rv.t <= F(nq, qb))),
              ("hh[key] > 0 only if some row stores exactly this identity in the key's cell", z3.Implies(rv.t != 0, z3.Or(*stored))),
              ("sketch unchanged by the lookup", z3.And(*[x == y for sid in (sk.lhh.sid, sk.cnt.sid, sk.kl.sid) for x, y in zip(post.heap[sid], pre[sid])]))]
     for i, (kind, cond) in enumerate(post.oblig):
@@ -235,7 +235,7 @@ def ob_bmc(prop, width, depth, mkl, skel, lens, timeout_ms):
             f = f + z3.If(hhh.same_ident(nq, qb, h["idents"][ii][0], h["idents"][ii][1]), vt, Z64)
         assume = list(post.pc) + h["assume"] + book.range_constraints() + cons
         if prop == "overcount":
-            bad = z3.UGT(zx(rv.t, 64), f)
+            bad = z3.Or(rv.t > f, rv.t < 0)
         else:
             # Boyer-Moore bound: hh[q] >= max_r (2 f - W_r) when positive, absent saturation
             total = Z64
@@ -247,7 +247,7 @@ def ob_bmc(prop, width, depth, mkl, skel, lens, timeout_ms):
                 for (ii, vt) in h["contrib"][0]:
                     Wr = Wr + z3.If(recs[ii][2][r] == colq[r], vt, Z64)
                 bounds.append(2 * f - Wr)
-            bad = z3.And(z3.ULT(total, MAX32), z3.Or(*[z3.And(bd > 0, zx(rv.t, 64) < bd) for bd in bounds]))
+            bad = z3.And(z3.ULT(total, MAX32), z3.Or(*[z3.And(bd > 0, rv.t < bd) for bd in bounds]))
         r, m = common.z3check(assume + [bad], timeout_ms, stats, label=f"HH BMC {prop} {depth}x{width} mkl={mkl} {skel} lens={lens} len(probe)={Lq}")
         if r == "unsat":
             continue
